@@ -400,7 +400,10 @@ def check(case, st):
         zfull = [1 - 2 * b for b in full]
         want = ad.decode(list(x))
         for form, sol, flag in (("bool-list", full, False), ("bool-dict", dict(enumerate(full)), False),
-                                ("spin-list", zfull, True), ("spin-dict", dict(enumerate(zfull)), True)):
+                                ("spin-list", zfull, True), ("spin-dict", dict(enumerate(zfull)), True),
+                                # the same assignments as dicts whose insertion order is not the label order
+                                ("bool-dict-reversed", dict(reversed(list(enumerate(full)))), False),
+                                ("spin-dict-reversed", dict(reversed(list(enumerate(zfull)))), True)):
             st.transitions += 2
             st.traces += 2
             r, _w = call(prob.convert_solution, sol, flag)
